@@ -231,6 +231,36 @@ def oracle(ck: Check, tier, deep):
             ck.violation(dict(sig, clause="negative-origin-wrap"), dict(rep, origin=list(oneg), equivalent_origin=list(o)),
                          f"origin {oneg} and the same point counted from the start {o} give different results "
                          f"({'shapes %s vs %s' % (out_neg.shape, out.shape) if out_neg.shape != out.shape else 'max diff %.3g' % np.abs(out_neg - out).max()})")
+    # an axis that is not selected is left alone, whatever coordinate is given for it; an origin array is not consumed
+    for _ in range(60 if not deep else 300):
+        r, c = (int(v) for v in rng.integers(9, 24, size=2))
+        im = rng.random((r, c))
+        order = int(rng.integers(0, 4))
+        o = (r / 2 + rng.uniform(-2.5, 2.5), c / 2 + rng.uniform(-2.5, 2.5))
+        sel = int(rng.integers(0, 2))
+        other = list(o)
+        other[1 - sel] = (r, c)[1 - sel] / 2 + rng.uniform(-2.5, 2.5)
+        ck.count(("S.axes-frac", sel, order), suite="S.frac")
+        rep = dict(shape=[r, c], origin=list(o), other_origin=other, axes=sel, order=order)
+        sig = dict(site="set_center", kind="fractional", clause="unselected-axis")
+        try:
+            a = set_center(im, o, axes=sel, crop="maintain_size", order=order)
+            b = set_center(im, tuple(other), axes=sel, crop="maintain_size", order=order)
+            none = set_center(im, o, axes=(), crop="maintain_size", order=order)
+            oarr = np.array([o[0], None], dtype=object)
+            r1 = set_center(im, oarr, crop="maintain_data", order=order)
+            r2 = set_center(im, oarr, crop="maintain_data", order=order)
+        except Exception as e:
+            ck.violation(dict(sig, clause="exception"), rep, f"{type(e).__name__}: {e}")
+            continue
+        if a.shape != b.shape or np.abs(a - b).max() > 1e-12:
+            ck.violation(sig, rep, f"with axes={sel} the coordinate given for the other axis changed the result by {np.abs(a - b).max() if a.shape == b.shape else 'shape'}")
+        # along the unselected axis nothing moves: every line keeps its total along the selected axis' complement
+        if none.shape != im.shape or np.abs(none - im).max() > 1e-12:          # (a spline of order ≥ 2 reproduces the samples to rounding)
+            ck.violation(dict(sig, clause="no-axes"), rep, "axes=() changed the image")
+        if oarr[0] != o[0] or oarr[1] is not None or r1.shape != r2.shape or np.abs(r1 - r2).max() > 1e-12:
+            ck.violation(dict(site="set_center", clause="origin-array-consumed"), rep,
+                         f"an object-dtype origin array was modified by the call (now {oarr.tolist()}) or a second identical call differs")
     # center_image flags
     for r, c, odd, sq in itertools.product(range(1, 13), range(1, 13), (True, False), (True, False)):
         if odd and c == 1 and False:
